@@ -1380,7 +1380,7 @@ fn main() {
     );
 
     let max_ev = tier.pick(40usize, 80);
-    ctx.run_prop("history-memory", move || arb_case(max_ev), tier.pick(400_000, 20_000_000), |c| run_history(c, BackendKind::Memory));
+    ctx.run_prop("history-memory", move || arb_case(max_ev), tier.pick(1_200_000, 20_000_000), |c| run_history(c, BackendKind::Memory));
     for l in ["broadcast-offered", "prove-offered", "mark-recorded", "rollback-unmined", "save-load"] {
         ctx.require_label_fraction("history-memory", l, 0.10);
     }
@@ -1391,7 +1391,7 @@ fn main() {
         ctx.require_min_count("history-memory", l, 50);
     }
 
-    ctx.run_prop("history-sqlite", move || arb_case(24), tier.pick(10_000, 400_000), |c| run_history(c, BackendKind::Sqlite));
+    ctx.run_prop("history-sqlite", move || arb_case(24), tier.pick(30_000, 400_000), |c| run_history(c, BackendKind::Sqlite));
     ctx.require_label_fraction("history-sqlite", "save-load", 0.10);
 
     let three = || (arb_migration_state(), arb_migration_state(), arb_migration_state());
